@@ -42,6 +42,15 @@ func (e *Engine) choicePoint(name string) bool {
 	return e.decide(v, "env")
 }
 
+// opaqueErrClass marks a stub error whose classification by errors.As / errors.Is is a
+// nondeterministic fact of the environment.
+const opaqueErrClass = "opaque-error-class"
+
+func isOpaqueErr(n *Native) bool {
+	c, ok := n.Data.(string)
+	return ok && c == opaqueErrClass
+}
+
 func nativeErr(msg string) Value { return &Iface{T: errType, V: &Native{Kind: "error", Msg: msg}} }
 
 func (e *Engine) fileToken(name string) *Cell {
@@ -264,7 +273,12 @@ func mainStubs(pegPkg, peg string) map[string]stubFn {
 			}
 			e.env["compile.file"] = a[1]
 			if e.faultPoint("compile") {
-				return nativeErr("compile: error")
+				// The error the real Compile returns is of no fixed class: a caller that
+				// classifies it (errors.As / errors.Is) gets either answer (choice point
+				// "errclass"), so that a main which lets some class of Compile errors
+				// through to exit 0 is explored; such a path is only reported after the
+				// real binary reproduced it (realisations of the fault in replayC18).
+				return &Iface{T: errType, V: &Native{Kind: "error", Msg: "compile: error", Data: opaqueErrClass}}
 			}
 			e.env["compiled_to"] = fileName(a[3])
 			e.env["compile_calls"] = e.showStr(e.envGet("compile_calls")) + "x"
